@@ -22,55 +22,46 @@ Theorem C08_cache_fresh : C08_cache_fresh_full.
 Proof. apply cache_fresh_repaired; try reflexivity; left; reflexivity. Qed.
 Print Assumptions C08_cache_fresh.
 
-(* Before the repair the code violated it in three independent ways; the lemmas stay as statements
-   about any policy with the offending switch (their antecedents are false for today's GENPOL, so
-   they are vacuous for it; checks/C08.py replays the three witness histories on every run). *)
-Theorem C08_cache_fresh_refuted_same_second :
-  p_le GENPOL = true -> p_del_rewrite GENPOL = false -> ~ C08_cache_fresh_full.
-Proof. exact (refuted_same_second GENPOL). Qed.
-Print Assumptions C08_cache_fresh_refuted_same_second.
+(* "... equals that of the same invocation with caching disabled": [expected] is not a free-standing
+   definition, it is what the machine does for the invocation with --no-cache in an empty directory *)
+Theorem C08_expected_is_nocache_run :
+  forall H ccinfo_of cc_ok pol tps i dur,
+    o_out (snd (do_run H ccinfo_of cc_ok pol tps (init tps) (with_nocache i) dur false)) = expected cc_ok i.
+Proof. exact expected_is_nocache_run. Qed.
+Print Assumptions C08_expected_is_nocache_run.
 
-Theorem C08_cache_fresh_refuted_nocheading :
-  p_nohead_cache GENPOL = true -> ~ C08_cache_fresh_full.
-Proof. exact (refuted_nocheading GENPOL). Qed.
-Print Assumptions C08_cache_fresh_refuted_nocheading.
-
-Theorem C08_cache_fresh_refuted_shared_output :
-  p_reuse_out GENPOL = true -> ~ C08_cache_fresh_full.
-Proof. exact (refuted_shared_output GENPOL). Qed.
-Print Assumptions C08_cache_fresh_refuted_shared_output.
-
-(* Strongest true restriction for the code as it is: freshness of every run of every history
-   whose invocations satisfy [hyps_ok] (evaluated along the execution): a run that rewrites the
-   C file happens in a later second than the last binary write (only if the comparison is <= and
-   the rewrite does not delete the slot's binary),
-   an -o file is used by one cache slot only (only if -o files are reused), no pragma
-   nocheading (only if such invocations may reuse binaries). *)
-Theorem C08_cache_fresh_partial :
+(* For ANY policy of the family (hash and size test kept): every history whose invocations satisfy
+   [hyps_ok] - a clause per switch the policy leaves open: rewrites in a later second than the last
+   binary write (only with <= and no delete-on-rewrite), one slot per -o file (only if -o files are
+   reused), no nocheading (only if such invocations reuse) - is fresh.  For the scraped policy every
+   clause is switched off and this is C08_cache_fresh again; it is kept for what it says about the
+   other policies (e.g. the code before 8d3d23d). *)
+Theorem C08_cache_fresh_general_policy :
+  forall pol, p_head_hash pol = true -> p_size_chk pol = true ->
   forall H ccinfo_of cc_ok tps, H_inj H -> (forall a b, ccinfo_of a = ccinfo_of b -> a = b) -> 0 < tps -> forall h,
-    hyps_ok H ccinfo_of cc_ok GENPOL tps (spaced_weak tps) (init tps) h = true ->
-    all_fresh cc_ok (exec H ccinfo_of cc_ok GENPOL tps (init tps) h) = true.
-Proof. intros; apply fresh_under_hyps; auto; reflexivity. Qed.
-Print Assumptions C08_cache_fresh_partial.
+    hyps_ok H ccinfo_of cc_ok pol tps (spaced_weak tps) (init tps) h = true ->
+    all_fresh cc_ok (exec H ccinfo_of cc_ok pol tps (init tps) h) = true.
+Proof. intros; apply fresh_under_hyps; auto. Qed.
+Print Assumptions C08_cache_fresh_general_policy.
 
-(* the wording of DESIGN.md: content-changing runs at least one second after the last build *)
-Theorem C08_cache_fresh_partial_1s :
-  forall H ccinfo_of cc_ok tps, H_inj H -> (forall a b, ccinfo_of a = ccinfo_of b -> a = b) -> 0 < tps -> forall h,
-    hyps_ok H ccinfo_of cc_ok GENPOL tps (spaced_1s tps) (init tps) h = true ->
-    all_fresh cc_ok (exec H ccinfo_of cc_ok GENPOL tps (init tps) h) = true.
-Proof. intros; apply fresh_under_hyps_1s; auto; reflexivity. Qed.
-Print Assumptions C08_cache_fresh_partial_1s.
-
-(* What the full theorem needs: the strict comparison, or deleting the slot's binary whenever its C
-   file is rewritten; no reuse of -o files; no reuse under nocheading (hash and size test kept). *)
-Theorem C08_cache_fresh_after_repair :
+(* which policies satisfy the full-strength statement ... *)
+Theorem C08_sufficient_policy :
   forall pol, p_le pol = false \/ p_del_rewrite pol = true ->
               p_reuse_out pol = false -> p_nohead_cache pol = false ->
               p_head_hash pol = true -> p_size_chk pol = true -> cache_fresh pol.
 Proof. exact cache_fresh_repaired. Qed.
-Print Assumptions C08_cache_fresh_after_repair.
+Print Assumptions C08_sufficient_policy.
 
-(* The two remaining ingredients are necessary. *)
+(* ... and each ingredient is necessary (the first three are the defects repaired by 8d3d23d) *)
+Theorem C08_strict_compare_needed : forall pol, p_le pol = true -> p_del_rewrite pol = false -> ~ cache_fresh pol.
+Proof. exact refuted_same_second. Qed.
+Print Assumptions C08_strict_compare_needed.
+Theorem C08_nocheading_guard_needed : forall pol, p_nohead_cache pol = true -> ~ cache_fresh pol.
+Proof. exact refuted_nocheading. Qed.
+Print Assumptions C08_nocheading_guard_needed.
+Theorem C08_output_guard_needed : forall pol, p_reuse_out pol = true -> ~ cache_fresh pol.
+Proof. exact refuted_shared_output. Qed.
+Print Assumptions C08_output_guard_needed.
 Theorem C08_hash_in_heading_needed : forall pol, p_head_hash pol = false -> ~ cache_fresh pol.
 Proof. exact refuted_without_hash. Qed.
 Print Assumptions C08_hash_in_heading_needed.
